@@ -1,7 +1,7 @@
 (* Property C10 — path addressing is exact.  Only statements and [exact]; proofs live in Proofs/KeyPath*.v, Proofs/Hier*.v. *)
 From PG Require Import Common.Tactics Model.KeyPath Model.Hier Model.KeyPathMachine Gen.KeyPathSrc Proofs.KeyPathMachineLink
   Proofs.KeyPathParse Proofs.KeyPathArith Proofs.KeyPathOrder
-  Proofs.KeyPathSetBase Proofs.KeyPathSetIter Proofs.KeyPathSetThm Proofs.KeyPathSetEq Proofs.KeyPathSetInter Proofs.HierTraverse Proofs.HierQuery Proofs.HierFlatten Proofs.KeyPathExamples.
+  Proofs.KeyPathSetBase Proofs.KeyPathSetIter Proofs.KeyPathSetThm Proofs.KeyPathSetEq Proofs.KeyPathSetInter Proofs.HierTraverse Proofs.HierQuery Proofs.HierFlatten Proofs.HierStop Proofs.HierMerge Proofs.KeyPathExamples.
 
 (* 1. A key path of admissible keys (integers; non-empty strings with balanced brackets) prints to a string
       that parses back to the same keys.  Any number of keys, any lengths. *)
@@ -142,6 +142,20 @@ Proof.
 Qed.
 Print Assumptions C10_set_add_intermediate.
 
+(*    ... and on any reachable set: besides the path itself, exactly those proper prefixes get marked whose next node
+      along the path did not exist before. *)
+Theorem C10_set_add_intermediate_general : forall q p t, twf q t -> cleanp q p ->
+  exists t', add_go q true p (TDict t) = Some (TDict t', negb (mem q p t)) /\ twf q t' /\
+    forall p', cleanp q p' ->
+      mem q p' t' = true <->
+      mem q p' t = true \/ p' = p \/ exists k r, p = p' ++ k :: r /\ walk q (p' ++ [k]) (TDict t) = Some None.
+Proof.
+  intros q p t Hw Hc. destruct (add_intermediate_general q p t Hw Hc) as (t' & A & B & _ & D).
+  exists t'. split; [exact A |]. split; [exact B |]. intros p' Hp'. unfold mem. rewrite (D p' Hp').
+  rewrite !orb_true_iff, path_eqb_eq, (ii_marks_spec q p t p' Hw Hc Hp'). tauto.
+Qed.
+Print Assumptions C10_set_add_intermediate_general.
+
 (* 6. Traversal.  [nodes v root] is the pre-order list of (path, node); at_path v s x says x is the node of v at the
       canonical path s (dict keys, list positions from 0); wfv = dict keys are distinct (as Python builds dicts).
       utils.traverse with visitors that always continue, and pg.traverse with visitors that always ENTER, log in
@@ -174,6 +188,22 @@ Proof.
 Qed.
 Print Assumptions C10_query_sound_complete.
 
+(*    utils.traverse with arbitrary visitors: the log is the full pre/post-order log cut after the first visitor call
+      that returns False, and the result is True exactly when no call returned False. *)
+Theorem C10_traverse_early_stop : forall pre post v path,
+  fst (trav pre post v path) = cut_at pre post (fst (trav TT TT v path)) /\
+  snd (trav pre post v path) = forallb (ok_ev pre post) (fst (trav TT TT v path)).
+Proof. exact traverse_early_stop. Qed.
+Print Assumptions C10_traverse_early_stop.
+
+(*    pg.traverse with arbitrary STOP / ENTER / CONTINUE visitors: it returns False exactly when some visitor call
+      answered STOP, and every visit it makes is a node of the value under its canonical path. *)
+Theorem C10_pg_traverse_actions : forall pre post v,
+  snd (strav pre post v []) = negb (existsb (stop_ev pre post) (fst (strav pre post v []))) /\
+  (forall p x, In (p, x) (pres (fst (strav pre post v []))) -> at_path v p x).
+Proof. exact pg_traverse_actions. Qed.
+Print Assumptions C10_pg_traverse_actions.
+
 (*    pg.query with enter_selected=False returns exactly the selected nodes that have no selected proper ancestor
       (at_cut sel [] v p x: x is the node at p and no node strictly above it, the root included, is selected). *)
 Theorem C10_query_not_entering : forall sel v p x,
@@ -200,3 +230,26 @@ Print Assumptions C10_listable_spec.
 Theorem C10_flatten_canonicalize_default : forall v, flat_ok v -> simple_keys v -> canon true (flatten true v) = inr v.
 Proof. exact canon_flatten_default. Qed.
 Print Assumptions C10_flatten_canonicalize_default.
+
+(* 8. merge_tree with merge_fn=None on dicts: under every key the result holds the source's value, the destination's,
+      or their merge; a non-dict source replaces the destination; merging a value into itself changes nothing; and the
+      conflict-checking merge canonicalize uses agrees with it whenever it succeeds. *)
+Theorem C10_merge_tree : forall d s r, NoDup (map fst s) -> merge_plain (PDict d) (PDict s) = inr r ->
+  exists rk, r = PDict rk /\
+    forall k, dget k rk =
+      match dget k s with
+      | None => dget k d
+      | Some sv => match dget k d with
+                   | None => Some sv
+                   | Some dv => match merge_plain dv sv with inr x => Some x | inl _ => None end
+                   end
+      end.
+Proof. exact merge_plain_lookup. Qed.
+Print Assumptions C10_merge_tree.
+
+Theorem C10_merge_tree_laws :
+  (forall d s, (forall sk, s <> PDict sk) -> merge_plain d s = inr s) /\
+  (forall v, wfv v -> merge_plain v v = inr v) /\
+  (forall s d r, merge_c d s = inr r -> merge_plain d s = inr r).
+Proof. split; [exact merge_plain_replace | split; [exact merge_plain_idem | exact merge_c_is_plain]]. Qed.
+Print Assumptions C10_merge_tree_laws.
